@@ -42,6 +42,7 @@ func run(c *core.Ctx) {
 	}()
 	defer wg.Wait()
 	raws := sessreal.Generate(c, "Gen_SessionCache.tla", gen, tlc.Options{})
+	nWalks := 0
 	if !c.Thorough() {
 		// seeded random walks of the same generator (longer than the exhaustive bound)
 		walks := kit.Dedupe(sessreal.Generate(c, "Gen_SessionCache.tla", "Gen_C07_walk.cfg",
@@ -52,19 +53,34 @@ func run(c *core.Ctx) {
 			walks = walks[:1200]
 		}
 		c.Set("seeded_walks", len(walks))
+		nWalks = len(walks)
 		raws = append(raws, walks...)
 	}
 	scs := sessreal.ParseAll(c, raws)
+	nGen := len(scs) - nWalks
 	wg.Wait()
 	if c.IsBroken() {
 		return
 	}
-	scs = maximal(scs)
+	// the generator's behaviours (edge cover / all behaviours) come first, then the walks
+	edge := maximal(scs[:nGen])
+	nEdge := len(edge)
+	scs = append(edge, maximal(scs[nGen:])...)
 	rng := c.Rand("c07")
 	var jobs []sessreal.Job
+	shaped := 0
 	for si, sc := range scs {
 		if si%1999 == 0 {
 			c.Sample(sc.H)
+		}
+		// address shapes: every behaviour that talks to both servers is also run with
+		// the two servers named by sinful strings that differ only in the query part
+		if si < nEdge && usesBothServers(sc) {
+			for _, shape := range []string{"sock", "ccbid", "param"} {
+				p := rng.Intn(8)
+				jobs = append(jobs, sessreal.Job{Kind: "C07", Sc: sc, V07: sessreal.Variant07{SwapTags: p&1 != 0, SwapAddrs: p&2 != 0, SwapCmds: p&4 != 0, API: "handshake", AddrShape: shape}})
+				shaped++
+			}
 		}
 		if c.Thorough() {
 			for p := 0; p < 8; p++ {
@@ -83,6 +99,7 @@ func run(c *core.Ctx) {
 		}
 		jobs = append(jobs, sessreal.Job{Kind: "C07", Sc: sc, V07: sessreal.Variant07{SwapTags: p&1 != 0, SwapAddrs: p&2 != 0, SwapCmds: p&4 != 0, API: api}})
 	}
+	c.Set("address_shape_executions", shaped)
 	var t sessreal.Totals
 	sessreal.ReplayAll(c, jobs, &t)
 	c.Set("abstract_behaviours", len(scs))
@@ -95,7 +112,18 @@ func run(c *core.Ctx) {
 	c.Set("lookups_compared", t.S07.LookupsCompared)
 	c.Set("permitted_divergences", t.Diverged)
 	c.Set("exhaustive", c.Thorough())
-	c.Set("rule", "behaviours = paths of the bounded behaviour graph of Next07 (ClientHandshake over tags {none,A,B} x 2 servers x 3 commands, Restart, BreakNext, Expire, Invalidate, Sweep) enumerated by TLC from Gen_SessionCache (mode C07): quick = one path per EDGE of the depth-4 graph (VIEW without history) plus seeded random walks of depth 7, thorough = every depth-4 behaviour; names are introduced in canonical order and the replayer applies the tag / address / command permutations (all 8 in thorough, one seeded in quick); each behaviour is executed with real ClientHandshake (and client.ConnectAndAuthenticateWithConfig over TCP loopback for a share) against real servers; after every step the wire request (resumption asked? which id), the handshake result and LookupByCommand for all 18 triples / Lookup for every session are compared with the model; non-trivial = more than one step")
+	c.Set("rule", "behaviours = paths of the bounded behaviour graph of Next07 (ClientHandshake over tags {none,A,B} x 2 servers x 3 commands, Restart, BreakNext, Expire, Invalidate, Sweep) enumerated by TLC from Gen_SessionCache (mode C07): quick = one path per EDGE of the depth-4 graph (VIEW without history) plus seeded random walks of depth 7, thorough = every depth-4 behaviour; names are introduced in canonical order and the replayer applies the tag / address / command permutations (all 8 in thorough, one seeded in quick); every generated behaviour that talks to both servers is additionally executed with the two servers named by sinful strings that share host:port and differ only in ?sock=, in CCBID, or in a custom parameter (each name wired to its own real server); each behaviour is executed with real ClientHandshake (and client.ConnectAndAuthenticateWithConfig over TCP loopback for a share) against real servers; after every step the wire request (resumption asked? which id), the handshake result and LookupByCommand for all 18 triples / Lookup for every session are compared with the model; non-trivial = more than one step")
+}
+
+// usesBothServers: the behaviour performs handshakes with both model servers.
+func usesBothServers(sc *sessreal.Scenario) bool {
+	seen := map[string]bool{}
+	for _, e := range sc.H {
+		if e.Step.Act == "Handshake" {
+			seen[e.Step.Addr] = true
+		}
+	}
+	return len(seen) >= 2
 }
 
 // maximal drops behaviours that are a proper prefix of another one.
